@@ -195,11 +195,26 @@ func (m Mode) arith(op string, a, b string, ii intInfo) (term string, mayOverflo
 		case "*":
 			return "(bvmul " + a + " " + b + ")", false, nil
 		case "/":
+			if sh, ok := bvPow2(b); ok {
+				// division by 2^k: a shift for non-negative dividends (cheaper to bit-blast)
+				shl := fmt.Sprintf("(bvlshr %s (_ bv%d %d))", a, sh, ii.bits)
+				if !ii.signed {
+					return shl, false, nil
+				}
+				return fmt.Sprintf("(ite (bvsge %s (_ bv0 %d)) %s (bvsdiv %s %s))", a, ii.bits, shl, a, b), false, nil
+			}
 			if ii.signed {
 				return "(bvsdiv " + a + " " + b + ")", false, nil
 			}
 			return "(bvudiv " + a + " " + b + ")", false, nil
 		case "%":
+			if sh, ok := bvPow2(b); ok {
+				mask := fmt.Sprintf("(bvand %s (_ bv%s %d))", a, new(big.Int).Sub(new(big.Int).Lsh(big.NewInt(1), uint(sh)), big.NewInt(1)).String(), ii.bits)
+				if !ii.signed {
+					return mask, false, nil
+				}
+				return fmt.Sprintf("(ite (bvsge %s (_ bv0 %d)) %s (bvsrem %s %s))", a, ii.bits, mask, a, b), false, nil
+			}
 			if ii.signed {
 				return "(bvsrem " + a + " " + b + ")", false, nil
 			}
@@ -324,4 +339,21 @@ func q(s string) string {
 		return s
 	}
 	return "|" + sanitize(s) + "|"
+}
+
+// bvPow2 recognises a bit-vector literal (_ bvN W) with N = 2^k, k >= 1.
+func bvPow2(lit string) (int, bool) {
+	var n string
+	var w int
+	if _, err := fmt.Sscanf(lit, "(_ bv%s %d)", &n, &w); err != nil {
+		return 0, false
+	}
+	v, ok := new(big.Int).SetString(n, 10)
+	if !ok || v.Sign() <= 0 || v.BitLen() < 2 {
+		return 0, false
+	}
+	if new(big.Int).And(v, new(big.Int).Sub(v, big.NewInt(1))).Sign() != 0 {
+		return 0, false
+	}
+	return v.BitLen() - 1, true
 }
